@@ -1,6 +1,6 @@
 // f_copier.cpp — family "copier": QHttpEngine::QIODeviceCopier with scripted devices (C14, C08)
 //   case ::= ( content seq bs from to (fopen_src fopen_dst fseek fread fwrite) ops )
-//   op   ::= (0) start | (1) turn | (2) stop | (3 bytes) feed | (4) finish
+//   op   ::= (0) start | (1) turn | (2) stop | (3 bytes) feed | (4) finish | (5 n) setBufferSize
 //   log  ::= (20 k) op marker | (1 bytes) destination write | (2) error | (3) finished
 #include <QBuffer>
 #include <QCoreApplication>
@@ -96,6 +96,7 @@ static Val run_copier(const Val &c)
             case 2: copier.stop(); break;
             case 3: if (seq) sq.feed(op.at(1).asBytes()); break;
             case 4: if (seq) sq.finish(); break;
+            case 5: copier.setBufferSize(op.at(1).asInt()); break;
             default: throw std::runtime_error("badcase");
             }
         }
